@@ -1,4 +1,213 @@
-import CifModel.Model.Value
-/- Property C19 — placeholder while the families are brought up; theorems follow. -/
+import CifModel.Lemmas.Value
+/-
+  Property C19 — value objects are independent deep values; lists and tables keep their contracts.
+
+  Pure level (this part): Model/Value against Spec/ValueSpec.  Heap level (ownership, disjointness of clones, exactly-once
+  release): second part of this file, over Model/Heap.
+-/
 namespace CifModel
+open Model.Value Spec.ValueSpec
+
+/-- **A list is a sequence**: insert shifts later elements (`List.insertIdx`), set replaces in place (`List.set`), remove
+    closes the gap and hands out the removed element (`List.eraseIdx`, `l[i]`), get reads `l[i]`; CIF_INVALID_INDEX
+    exactly when `i > size` (insert) resp. `i ≥ size` (set, remove, get); a NULL element stands for the unknown value. -/
+theorem C19_list_is_sequence (vs : List V) (i : Nat) (x : Option V) :
+    listInsert (.lst vs) i x = (match seqInsert vs i (x.getD .unk) with
+        | .ok l => .ok (.lst l) | .invalidIndex => .error INVALID_INDEX)
+    ∧ listSet (.lst vs) i x = (match seqSet vs i (x.getD .unk) with
+        | .ok l => .ok (.lst l) | .invalidIndex => .error INVALID_INDEX)
+    ∧ listRemove (.lst vs) i = (match seqRemove vs i with
+        | .ok (l, r) => .ok (.lst l, r) | .invalidIndex => .error INVALID_INDEX)
+    ∧ listGet (.lst vs) i = (match seqGet vs i with
+        | .ok r => .ok r | .invalidIndex => .error INVALID_INDEX)
+    ∧ elementCount (.lst vs) = .ok vs.length := by
+  refine ⟨?_, ?_, ?_, ?_, rfl⟩
+  · unfold listInsert seqInsert
+    by_cases h : i ≤ vs.length
+    · have : ¬ i > vs.length := by omega
+      simp [h, this, insertAt_eq _ _ _ h]
+    · have : i > vs.length := by omega
+      simp [h, this]
+  · unfold listSet seqSet
+    by_cases h : i < vs.length
+    · have : ¬ i ≥ vs.length := by omega
+      simp [h, this, setAt_eq]
+    · have : i ≥ vs.length := by omega
+      simp [h, this]
+  · simp only [listRemove, seqRemove, getAt_eq, removeAt_eq]
+    by_cases h : i < vs.length
+    · have : ¬ i ≥ vs.length := by omega
+      simp [this, List.getElem?_eq_getElem h]
+    · have h' : i ≥ vs.length := by omega
+      simp [h']
+  · simp only [listGet, seqGet, getAt_eq]
+    by_cases h : i < vs.length
+    · have : ¬ i ≥ vs.length := by omega
+      simp [this, List.getElem?_eq_getElem h]
+    · have h' : i ≥ vs.length := by omega
+      simp [h']
+
+/-- **A table is a map** keyed by the normalised key: after `set` the key maps to the value entered (NULL = unknown
+    value) under the spelling just used, every other key is unaffected, a new key is appended to the enumeration order
+    and an existing one keeps its place; after `remove` the key is absent and the rest unaffected; `get` is lookup;
+    `get_keys` enumerates in order of first entry with the most recent spelling; the no-duplicate invariant is kept. -/
+theorem C19_table_is_map (norm : Str → Option Str) (es : List Entry) (hn : nodupKeys es = true)
+    (key nk : Str) (hk : norm key = some nk) (x : Option V) :
+    (∃ es', tableSet norm (.tbl es) key x = .ok (.tbl es') ∧ absMap es' = (absMap es).set nk key (x.getD .unk)
+        ∧ nodupKeys es' = true)
+    ∧ tableGet norm (.tbl es) key = (match (absMap es).lookup nk with | some v => .ok v | none => .error NOSUCH_ITEM)
+    ∧ tableRemove norm (.tbl es) key = (match (absMap es).lookup nk with
+        | some v => .ok (.tbl (mapErase es nk), v) | none => .error NOSUCH_ITEM)
+    ∧ absMap (mapErase es nk) = (absMap es).erase nk ∧ nodupKeys (mapErase es nk) = true
+    ∧ tableKeys (.tbl es) = .ok (absMap es).keys := by
+  refine ⟨⟨mapSet es nk key x, by simp [tableSet, hk], abs_mapSet es nk key x, nodup_mapSet es nk key x hn⟩, ?_, ?_,
+    abs_mapErase es nk hn, nodup_mapErase es nk hn, by simp [tableKeys, mapKeys_abs es hn]⟩
+  · simp only [tableGet, hk, AMap.lookup, absMap]
+    cases mapFind es nk <;> rfl
+  · simp only [tableRemove, hk, AMap.lookup, absMap]
+    cases mapFind es nk <;> rfl
+
+/-- a key the normaliser rejects: set reports CIF_INVALID_INDEX, get and remove report CIF_NOSUCH_ITEM; nothing changes -/
+theorem C19_table_invalid_key (norm : Str → Option Str) (es : List Entry) (key : Str) (hk : norm key = none) (x : Option V) :
+    tableSet norm (.tbl es) key x = .error INVALID_INDEX ∧ tableGet norm (.tbl es) key = .error NOSUCH_ITEM
+    ∧ tableRemove norm (.tbl es) key = .error NOSUCH_ITEM := by
+  simp [tableSet, tableGet, tableRemove, hk]
+
+/-- **Histories**: after any sequence of set / remove operations starting from the empty table, the association list of
+    the model is the abstract map obtained by replaying the same history (so every lookup and the key enumeration agree). -/
+theorem C19_table_history (ops : List MapOp) :
+    absMap (runMap [] ops) = AMap.empty.run ops ∧ nodupKeys (runMap [] ops) = true
+    ∧ mapKeys (runMap [] ops) = (AMap.empty.run ops).keys := by
+  have h := runMap_refines ops [] rfl
+  refine ⟨h.1, h.2, ?_⟩
+  rw [mapKeys_abs _ h.2, h.1]
+  rfl
+
+/-- **Packets obey the same map contract** with data-name matching (`norm` = cif_normalize_item_name): the operations are
+    the table operations on the packet's entries, with CIF_INVALID_ITEMNAME for a rejected name on set. -/
+theorem C19_packet_is_map (norm : Str → Option Str) (p : Packet) (name : Str) (x : Option V) :
+    packetSet norm p name x = (match norm name with | some nk => .ok (mapSet p nk name x) | none => .error INVALID_ITEMNAME)
+    ∧ packetGet norm p name = (match tableGet norm (.tbl p) name with | .ok v => .ok v | .error c => .error c)
+    ∧ packetRemove norm p name = (match tableRemove norm (.tbl p) name with
+        | .ok (.tbl p', v) => .ok (p', v) | .ok (_, _) => .error NOSUCH_ITEM | .error c => .error c)
+    ∧ packetNames p = mapKeys p := by
+  refine ⟨?_, ?_, ?_, rfl⟩
+  · unfold packetSet; cases norm name <;> rfl
+  · cases h1 : norm name with
+    | none => simp [packetGet, tableGet, h1]
+    | some nk => cases h2 : mapFind p nk <;> simp [packetGet, tableGet, h1, h2]
+  · cases h1 : norm name with
+    | none => simp [packetRemove, tableRemove, h1]
+    | some nk => cases h2 : mapFind p nk <;> simp [packetRemove, tableRemove, h1, h2]
+
+/-- names that normalise to distinct data names: `cif_packet_create` yields a packet holding the unknown value under each
+    name in the order given, with no duplicate key -/
+def distinctNorm (norm : Str → Option Str) : List Str → Bool
+  | [] => true
+  | n :: ns => ns.all (fun m => norm m != norm n) && distinctNorm norm ns
+
+theorem C19_packet_create (norm : Str → Option Str) (names : List Str) (hv : ∀ n ∈ names, (norm n).isSome)
+    (hd : distinctNorm norm names = true) :
+    ∃ p, packetCreate norm names = .ok p ∧ nodupKeys p = true ∧ packetNames p = names
+      ∧ ∀ n ∈ names, packetGet norm p n = .ok .unk := by
+  induction names with
+  | nil => exact ⟨[], rfl, rfl, rfl, fun n h => by cases h⟩
+  | cons n ns ih =>
+    simp only [distinctNorm, Bool.and_eq_true, List.all_eq_true, bne_iff_ne, ne_eq] at hd
+    obtain ⟨p, hp, hnd, hnames, hget⟩ := ih (fun m hm => hv m (by simp [hm])) hd.2
+    have hn := hv n (by simp)
+    obtain ⟨nk, hnk⟩ := Option.isSome_iff_exists.mp hn
+    have hfresh : mapFind p nk = none := by
+      cases hf : mapFind p nk with
+      | none => rfl
+      | some e =>
+        exfalso
+        -- an entry with key nk in p comes from some name m ∈ ns with norm m = some nk
+        have hmem : ∀ (q : Packet) (ms : List Str), packetCreate norm ms = .ok q → mapFind q nk = some e →
+            ∃ m ∈ ms, norm m = some nk := by
+          intro q ms
+          induction ms generalizing q with
+          | nil => intro h1 h2; simp [packetCreate] at h1; subst h1; simp [mapFind] at h2
+          | cons m ms ihm =>
+            intro h1 h2
+            simp only [packetCreate] at h1
+            cases hm : norm m with
+            | none => simp [hm] at h1
+            | some mk =>
+              simp only [hm] at h1
+              cases hq : packetCreate norm ms with
+              | error c => simp [hq] at h1
+              | ok q' =>
+                simp only [hq] at h1
+                injection h1 with h1
+                subst h1
+                simp only [mapFind] at h2
+                by_cases hmk : mk = nk
+                · exact ⟨m, by simp, by rw [hm, hmk]⟩
+                · simp only [hmk, if_false] at h2
+                  obtain ⟨m', hm', hn'⟩ := ihm q' hq h2
+                  exact ⟨m', by simp [hm'], hn'⟩
+        obtain ⟨m, hm, hmn⟩ := hmem p ns hp hf
+        exact hd.1 m hm (by rw [hmn, hnk])
+    refine ⟨(nk, n, .unk) :: p, by simp [packetCreate, hnk, hp], ?_, ?_, ?_⟩
+    · simp [nodupKeys, hfresh, hnd]
+    · simp only [packetNames, mapKeys, List.map_cons] at hnames ⊢
+      rw [hnames]
+    · intro m hm
+      rcases List.mem_cons.mp hm with rfl | hm'
+      · simp [packetGet, hnk, mapFind]
+      · have := hget m hm'
+        obtain ⟨mk, hmk⟩ := Option.isSome_iff_exists.mp (hv m (by simp [hm']))
+        have hne : ¬ nk = mk := by
+          intro h
+          exact hd.1 m hm' (by rw [hmk, hnk, h])
+        simp only [packetGet, hmk, mapFind, hne, if_false] at this ⊢
+        exact this
+
+/-- F33 (open): given two names for one item, `cif_packet_create` as written builds a packet with a duplicate key -/
+theorem C19_cex_packet_create_dup :
+    ∃ p, packetCreate (fun _ => some (a!"_a")) [(a!"_a"), (a!"_A")] = .ok p ∧ nodupKeys p = false := ⟨_, rfl, by decide⟩
+
+/-- **Wrong kind**: every list operation on a value that is not a list, every table operation on a value that is not a
+    table, and the element count of a scalar, return CIF_ARGUMENT_ERROR (and change nothing) -/
+theorem C19_wrong_kind (norm : Str → Option Str) (v : V) (i : Nat) (key : Str) (x : Option V) :
+    ((∀ vs, v ≠ .lst vs) →
+        listGet v i = .error ARGUMENT_ERROR ∧ listSet v i x = .error ARGUMENT_ERROR
+        ∧ listInsert v i x = .error ARGUMENT_ERROR ∧ listRemove v i = .error ARGUMENT_ERROR)
+    ∧ ((∀ es, v ≠ .tbl es) →
+        tableGet norm v key = .error ARGUMENT_ERROR ∧ tableSet norm v key x = .error ARGUMENT_ERROR
+        ∧ tableRemove norm v key = .error ARGUMENT_ERROR ∧ tableKeys v = .error ARGUMENT_ERROR)
+    ∧ ((∀ vs, v ≠ .lst vs) → (∀ es, v ≠ .tbl es) → elementCount v = .error ARGUMENT_ERROR) := by
+  refine ⟨?_, ?_, ?_⟩
+  · intro h; cases v <;> first | (exact absurd rfl (h _)) | simp [listGet, listSet, listInsert, listRemove]
+  · intro h; cases v <;> first | (exact absurd rfl (h _)) | simp [tableGet, tableSet, tableRemove, tableKeys]
+  · intro h1 h2; cases v <;> first | (exact absurd rfl (h1 _)) | (exact absurd rfl (h2 _)) | simp [elementCount]
+
+/-- **Clone is equal**: kind, text, quoting, numeric attributes and the full recursive structure -/
+theorem C19_clone_equal (v : V) : clone v = v ∧ (clone v == v) = true ∧ kind (clone v) = kind v :=
+  ⟨rfl, beq_refl v, rfl⟩
+
+/-- **(Re)initialisers release the previous content** (pure level: nothing of it remains observable): the result of
+    `cif_value_init`, `cif_value_init_char` / `copy_char` and `cif_value_clean` does not depend on what the object held,
+    and a cleaned object has no members. -/
+theorem C19_reinit_releases (v w : V) (kind : Nat) (t : Str) (s : Step) (p : List Step) :
+    init v kind = init w kind ∧ initChar v (some t) = initChar w (some t) ∧ clean v = clean w
+    ∧ resolve (clean v) (s :: p) = none ∧ (initChar v none).2 = v := by
+  refine ⟨?_, rfl, rfl, ?_, rfl⟩
+  · unfold Model.Value.init; cases defaultOf kind <;> rfl
+  · cases s <;> rfl
+
+/-- F32 (open), pure shadow: cloning onto an object that contains the source reads the released source (`none`);
+    cloning an object onto itself leaves the unknown value -/
+theorem C19_cex_clone_alias :
+    cloneOnto (.lst [.lst [.chr true (a!"x")]]) [.idx 0, .idx 0] [.idx 0] = none
+    ∧ cloneOnto (.lst [.chr true (a!"x")]) [] [] = some .unk := ⟨rfl, rfl⟩
+
+/-! ### non-vacuity -/
+example : nodupKeys [((a!"k"), (a!"K"), .unk), ((a!"l"), (a!"l"), .na)] = true := by decide
+example : listInsert (.lst [.unk, .na]) 2 (some (.chr true [])) = .ok (.lst [.unk, .na, .chr true []]) := rfl
+example : listInsert (.lst [.unk, .na]) 3 none = .error INVALID_INDEX := rfl
+example : distinctNorm (fun s => some s) [(a!"_a"), (a!"_b")] = true := by decide
+example : ∀ vs, V.chr true [] ≠ .lst vs := by intro vs h; cases h
+
 end CifModel
